@@ -30,6 +30,8 @@ def streams(seed):
     sz[5] += 1  # commandSize + 1
     out.append(("size-fault", [bytes(sz), gc[1]], False))
     out.append(("truncated", [st[0], st[1][:-3]], False))
+    # a response tagged TPM_ST_RSP_COMMAND (what a TPM answers to a command it cannot parse), followed by a normal pair
+    out.append(("rsp-command-tag", [st[0], bytes.fromhex("00c40000000a0000001e"), st[0], st[1]], True))
     return out
 
 
@@ -196,7 +198,11 @@ def run_unit(unit):
                     combos.append(tuple(v if j == i else "trailer" for j in range(n_m)))
         combos = sorted(set(combos))
         extras = (None, "runt", "empty", "runt-first")
-        for framing, vs, extra in itertools.product(("ip", "eth"), combos, extras):
+        # Ethernet with all-zero MACs (loopback) for every layout; real destination MACs (first octet 0x02, 0x44, 0x48)
+        # for the plain layouts
+        plain = [c for c in combos if set(c) <= {"exact", "trailer"}][:2]
+        layouts = list(itertools.product(("ip", "eth"), combos, extras)) + list(itertools.product(("eth-mac:02", "eth-mac:44", "eth-mac:48"), plain, (None, "runt")))
+        for framing, vs, extra in layouts:
             pkts = []
             for m, v in zip(msgs, vs):
                 pkts.append(m + tails[v])
